@@ -165,7 +165,7 @@ func Child(prop string) func(rep *report.Report, tier, part string) {
 func c09Searches(tier string) []named {
 	n, depth := 2, 7
 	if tier == "thorough" {
-		n, depth = 3, 8
+		n, depth = 3, 9
 	}
 	ls := c09Letters(n, tier == "thorough")
 	o := &Options{Letters: ls, Sessions: n, Checks: Checks{Protocol: true}}
@@ -223,7 +223,7 @@ func c10Letters(n int, thorough bool) []Letter {
 func c10Searches(tier string) []named {
 	n, depth := 1, 7
 	if tier == "thorough" {
-		n, depth = 2, 8
+		n, depth = 2, 9
 	}
 	ls := c10Letters(n, tier == "thorough")
 	o := &Options{Letters: ls, Sessions: n, Checks: Checks{Disconnect: true}}
@@ -281,7 +281,7 @@ func c06Letters(n int, p *spb.SessionParameters) []Letter {
 func c06Searches(tier string) []named {
 	depth := 6
 	if tier == "thorough" {
-		depth = 7
+		depth = 8
 	}
 	var out []named
 	for _, cfg := range []struct {
